@@ -60,3 +60,6 @@ package client
 //@   at after call Encode#1: ghost encoded := true
 //@   ensures local-an-encoding-failure-is-reported: opened ==> (encoded && err == eerr)
 //@   ensures local-an-open-failure-is-reported: !opened ==> err != nil
+//@   ghost emptied bool = false
+//@   at call OpenFile#1: ghost emptied := (callarg1 & 512) != 0
+//@   ensures local-no-stale-bytes-survive-a-save: opened ==> emptied
